@@ -129,7 +129,14 @@ class ReverseProxy(TcpUpstreamConnectionHandler, HttpWebServerBasePlugin):
                 if self.upstream is None:
                     self.initialize_upstream(*addr)
                     assert self.upstream
-                    self.upstream.connect()
+                    try:
+                        self.upstream.connect()
+                    except Exception:
+                        # Never keep an upstream around which did not connect.
+                        # The work may live on (e.g. to flush an earlier
+                        # response) and would poll its descriptor.
+                        self.upstream = None
+                        raise
                     if self.choice.scheme == HTTPS_PROTO:
                         self.upstream.wrap(
                             text_(self.choice.hostname),
